@@ -5,6 +5,16 @@ from .tokens import Token, TokenType, KEYWORDS
 from .errors import JSSyntaxError
 
 
+def _as_double(value: int) -> float | int:
+    """An integer literal beyond 2**53 denotes the nearest double."""
+    if value > 9007199254740992:
+        try:
+            return float(value)
+        except OverflowError:
+            return float("inf")
+    return value
+
+
 class Lexer:
     """Tokenizes JavaScript source code."""
 
@@ -169,7 +179,7 @@ class Lexer:
                     hex_str += self._advance()
                 if not hex_str:
                     raise JSSyntaxError("Invalid hex literal", line, col)
-                return int(hex_str, 16)
+                return _as_double(int(hex_str, 16))
             elif next_ch and next_ch in "oO":
                 # Octal
                 self._advance()  # 0
@@ -179,7 +189,7 @@ class Lexer:
                     oct_str += self._advance()
                 if not oct_str:
                     raise JSSyntaxError("Invalid octal literal", line, col)
-                return int(oct_str, 8)
+                return _as_double(int(oct_str, 8))
             elif next_ch and next_ch in "bB":
                 # Binary
                 self._advance()  # 0
@@ -189,7 +199,7 @@ class Lexer:
                     bin_str += self._advance()
                 if not bin_str:
                     raise JSSyntaxError("Invalid binary literal", line, col)
-                return int(bin_str, 2)
+                return _as_double(int(bin_str, 2))
             # Could be 0, 0.xxx, or 0e... - fall through to decimal handling
 
         # Decimal number (integer part)
@@ -218,7 +228,7 @@ class Lexer:
         num_str = self.source[start : self.pos]
         if is_float:
             return float(num_str)
-        return int(num_str)
+        return _as_double(int(num_str))
 
     def _read_identifier(self) -> str:
         """Read an identifier."""
